@@ -20,12 +20,16 @@ import (
 	"github.com/EliCDavis/vector/vector3"
 )
 
-// one field: integer domain box [Lo, Hi] (cubesPerUnit = 1), sphere of radius R2/2 around C
+// one field: integer domain box [Lo, Hi] (cubesPerUnit = 1), sphere of radius R (or R2/2) around C; the field
+// value is |p-c| - r + Off.  Off = 7.25 with cutoff 7.25 puts the never-written cells (0) INSIDE the surface,
+// Off = 0 with cutoff 0 puts them outside (the usual signed-distance set-up).
 type fieldDesc struct {
-	Lo [3]int `json:"lo"`
-	Hi [3]int `json:"hi"`
-	C  [3]int `json:"c"`
-	R2 int    `json:"r2"`
+	Lo  [3]int  `json:"lo"`
+	Hi  [3]int  `json:"hi"`
+	C   [3]int  `json:"c"`
+	R2  int     `json:"r2,omitempty"`
+	R   float64 `json:"r,omitempty"`
+	Off float64 `json:"off"`
 }
 
 const surfaceOffset = 7.25 // field value on the sphere; |p-c| = r - 7.25 has no solution on integer p, so no cell is 0
@@ -42,10 +46,14 @@ func (f fieldDesc) field(nfun int) marching.Field {
 	hi := vector3.New(float64(f.Hi[0]), float64(f.Hi[1]), float64(f.Hi[2]))
 	c := vector3.New(float64(f.C[0]), float64(f.C[1]), float64(f.C[2]))
 	r := float64(f.R2) / 2
+	if f.R != 0 {
+		r = f.R
+	}
+	off := f.Off
 	fns := map[string]sample.Vec3ToFloat{}
 	for k := 0; k < nfun; k++ {
 		if k == 0 {
-			fns[attrOf(0)] = func(p vector3.Float64) float64 { return p.Distance(c) - r + surfaceOffset }
+			fns[attrOf(0)] = func(p vector3.Float64) float64 { return p.Distance(c) - r + off }
 		} else {
 			kk := float64(k)
 			fns[attrOf(k)] = func(p vector3.Float64) float64 { return p.X() + 2*p.Y() + 3*p.Z() + kk + 0.5 }
@@ -164,7 +172,7 @@ func triKeys(m modeling.Mesh) []triKey {
 	for t := 0; t+2 < idx.Len(); t += 3 {
 		var k triKey
 		for c := 0; c < 3; c++ {
-			vi := modeling.Vector3ToInt(pos.At(idx.At(t+c)), 3)
+			vi := modeling.Vector3ToInt(pos.At(idx.At(t+c)), 4) // weldDecimalPlaces of canvas.go (cell units; cubesPerUnit = 1)
 			k[3*c], k[3*c+1], k[3*c+2] = vi.X, vi.Y, vi.Z
 		}
 		out = append(out, k)
